@@ -328,13 +328,16 @@ func replay(t *testing.T, path string, emit func(map[string]any)) {
 	for i := 0; i < n; i++ {
 		watchdogWhat.Store("replay " + path)
 		watchdogDeadline.Store(time.Now().Add(60 * time.Second).UnixNano())
-		r := RunOne(t, RunOpts{Prop: rf.Property, Tier: rf.Tier, Seed: rf.Seed, Replay: rf.Tape, Trace: i == 0})
+		r := RunOne(t, RunOpts{Prop: rf.Property, Tier: rf.Tier, Seed: rf.Seed, Replay: rf.Tape, Trace: true})
 		watchdogDeadline.Store(0)
-		if hasRule(r, rf.Rule, rf.Locus) {
-			hits++
-		}
 		if i == 0 {
 			last = r
+		}
+		if hasRule(r, rf.Rule, rf.Locus) {
+			hits++
+			if hits == 1 {
+				last = r // show the trace of an execution that reproduces
+			}
 		}
 	}
 	emit(map[string]any{"type": "replayed", "path": path, "rule": rf.Rule, "locus": rf.Locus, "reproduced": hits, "of": n,
